@@ -523,4 +523,100 @@ theorem wsum_le (hi : ℝ) : ∀ (x w : List ℝ), x.length = w.length → (∀ 
       have hb : 0 ≤ b := hw b (by simp)
       nlinarith [mul_le_mul_of_nonneg_right ha hb]
 
+/-! ### restoring sample order by sample index -/
+
+theorem insertKey_perm (p : ℕ × ℕ) (l : List (ℕ × ℕ)) : (insertKey p l).Perm (p :: l) := by
+  induction l with
+  | nil => simp [insertKey]
+  | cons q qs ih =>
+    unfold insertKey
+    split
+    · exact (List.Perm.cons q ih).trans (List.Perm.swap p q qs)
+    · exact List.Perm.refl _
+
+theorem sortKeys_perm (l : List (ℕ × ℕ)) : (sortKeys l).Perm l := by
+  induction l with
+  | nil => simp [sortKeys]
+  | cons p ps ih =>
+    unfold sortKeys
+    exact (insertKey_perm p _).trans (List.Perm.cons p ih)
+
+theorem insertKey_sorted (p : ℕ × ℕ) (l : List (ℕ × ℕ)) (h : l.Pairwise (fun a b => a.1 ≤ b.1)) :
+    (insertKey p l).Pairwise (fun a b => a.1 ≤ b.1) := by
+  induction l with
+  | nil => simp [insertKey]
+  | cons q qs ih =>
+    unfold insertKey
+    rw [List.pairwise_cons] at h
+    split
+    · rename_i hlt
+      rw [List.pairwise_cons]
+      refine ⟨?_, ih h.2⟩
+      intro b hb
+      rcases List.mem_cons.1 ((insertKey_perm p qs).mem_iff.1 hb) with rfl | hb
+      · exact Nat.le_of_lt hlt
+      · exact h.1 b hb
+    · rename_i hnlt
+      have hpq : p.1 ≤ q.1 := Nat.le_of_not_lt hnlt
+      rw [List.pairwise_cons]
+      refine ⟨?_, List.pairwise_cons.2 h⟩
+      intro b hb
+      rcases List.mem_cons.1 hb with rfl | hb
+      · exact hpq
+      · exact Nat.le_trans hpq (h.1 b hb)
+
+theorem sortKeys_sorted (l : List (ℕ × ℕ)) : (sortKeys l).Pairwise (fun a b => a.1 ≤ b.1) := by
+  induction l with
+  | nil => simp [sortKeys]
+  | cons p ps ih => unfold sortKeys; exact insertKey_sorted p _ ih
+
+/-- the sorted keys of a permutation of `0 … n-1` are `0 … n-1` -/
+theorem sortKeys_fst (index : List ℕ) (n : ℕ) (hp : index.Perm (List.range n)) :
+    (sortKeys index.zipIdx).map Prod.fst = List.range n := by
+  have h1 : ((sortKeys index.zipIdx).map Prod.fst).Perm (List.range n) := by
+    refine ((sortKeys_perm _).map Prod.fst).trans ?_
+    have : index.zipIdx.map Prod.fst = index := by simp
+    rw [this]; exact hp
+  have h2 : ((sortKeys index.zipIdx).map Prod.fst).Pairwise (· ≤ ·) := by
+    rw [List.pairwise_map]; exact sortKeys_sorted _
+  have h3 : (List.range n).Pairwise (· ≤ ·) := (List.pairwise_lt_range).imp Nat.le_of_lt
+  exact List.Perm.eq_of_pairwise (fun a b _ _ hab hba => Nat.le_antisymm hab hba) h2 h3 h1
+
+/-- **the re-ordering is correct for every gather order**: if entry `k` of the gathered list is the value `g` of
+    sample `index[k]` and `index` enumerates every sample once, the restored list is `g 0, g 1, …` -/
+theorem restoreOrder_map {β : Type} (g : ℕ → β) (index : List ℕ) (n : ℕ) (hp : index.Perm (List.range n)) :
+    restoreOrder index (index.map g) = (List.range n).map g := by
+  unfold restoreOrder gather argsortNat
+  rw [List.filterMap_map]
+  have hmem : ∀ p ∈ sortKeys index.zipIdx, ((fun j => (index.map g)[j]?) ∘ Prod.snd) p = some (g p.1) := by
+    intro p hp'
+    have hz : p ∈ index.zipIdx := (sortKeys_perm _).mem_iff.1 hp'
+    obtain ⟨hlt, hget⟩ : ∃ h : p.2 < index.length, index[p.2] = p.1 := by
+      have := List.mem_zipIdx hz
+      simp at this
+      exact ⟨this.1, this.2.symm⟩
+    simp [hlt, hget]
+  have : (sortKeys index.zipIdx).filterMap ((fun j => (index.map g)[j]?) ∘ Prod.snd) =
+      (sortKeys index.zipIdx).map (fun p => g p.1) := by
+    rw [List.filterMap_congr hmem]
+    exact congrFun (List.filterMap_eq_map (f := fun p : ℕ × ℕ => g p.1)) _
+  rw [this, ← sortKeys_fst index n hp, List.map_map]
+  rfl
+
+/-- one process: the index list is `0 … n-1` and nothing moves -/
+theorem restoreOrder_range {β : Type} (a : List β) : restoreOrder (List.range a.length) a = a := by
+  cases a with
+  | nil => rfl
+  | cons x xs =>
+    have ha : (x :: xs) = (List.range (x :: xs).length).map (fun i => (x :: xs).getD i x) := by
+      apply List.ext_getElem
+      · simp
+      · intro i h1 h2
+        simp at h1
+        simp [List.getD, h1]
+    have h := restoreOrder_map (fun i => (x :: xs).getD i x) (List.range (x :: xs).length) (x :: xs).length
+      (List.Perm.refl _)
+    rw [← ha] at h
+    exact h
+
 end Taurex.C09
